@@ -79,8 +79,8 @@ claim('C09',
       'controllers\' pending reconcile requests - a reconcile runs only while its request is pending; requests come from store events (mapped to ids '
       'as pkg/controller/v2/*/watcher.go does), from Result.Requeue of the real Reconcile, from an error return (retry) and from the environment - '
       'and BMC decides that no reachable state has every queue empty while re-examining a record changes the state (first sentence) or while, with '
-      'every target connected, a transaction is not final (second sentence). The event->id mapping is restated in the harness: a change to watcher.go '
-      'itself is NOT seen; a device answering PermissionDenied with no later master is outside. Timers per the controller library contract.',
+      'every target connected, a transaction is not final (second sentence). The event->id mapping restated in the harness is checked against the REAL store watchers of the four controllers '
+      '(Watcher.Start goroutines run as coroutines over stub stores: every event is mapped, to exactly those ids; topology watchers outside); a device answering PermissionDenied with no later master is outside. Timers per the controller library contract.',
       PROTO_NOTE, 'SSA symbolic execution -> transition relation; bounded model checking with fixed-point probes (z3)', 'DESIGN.md 6/C09')
 claim('C10',
       'Real mastership + configuration + proposal reconcilers with connection loss, device restart and re-connection under a new connection id '
